@@ -1,10 +1,11 @@
 package big
 
 // Rec is used for the "big" workloads (one page of thousands of records, or hundreds of row groups):
-// a required and an optional string, an int64 and a list keep page bodies beyond 32/64 KiB cheap to produce.
+// a required and an optional string, an int64, a list and a required bool keep page bodies beyond 32/64 KiB cheap to produce.
 type Rec struct {
 	ID int64   `parquet:"id"`
 	S  string  `parquet:"s"`
 	O  *string `parquet:"o"`
 	L  []int64 `parquet:"l"`
+	B  bool    `parquet:"b"`
 }
